@@ -2292,6 +2292,10 @@ static Node *to_assign(Node *binary) {
   //   new;      (or old, for postfix ++ and --)
   // })
   if (binary->lhs->ty->is_atomic) {
+    // The update is done with cmpxchg, which handles up to 8 bytes.
+    if (binary->lhs->ty->size > 8)
+      error_tok(tok, "atomic read-modify-write of an object larger than 8 bytes is not supported");
+
     Node head = {};
     Node *cur = &head;
 
